@@ -10,6 +10,7 @@ import contextlib
 import dataclasses
 import io
 import logging
+import os
 import queue
 import random
 import sys
@@ -87,6 +88,13 @@ def make_statement(spec: dict) -> Any:
     raise ValueError(kind)
 
 
+def _join_new_threads(before: set, timeout: float = 5.0) -> None:
+    # (threads started by the simulated main thread inherit its daemon flag; in a real process they would not be daemons)
+    for t in set(threading.enumerate()) - before:
+        if t is not threading.current_thread() and not t.name.startswith('nlv-') and not isinstance(t, threading._DummyThread):
+            t.join(timeout)
+
+
 def reference(spec: dict) -> dict:
     """untraced execution in the same kind of fresh globals the runner uses"""
     tee = _Tee()
@@ -95,6 +103,7 @@ def reference(spec: dict) -> dict:
     ret = None
     kind = spec.get('statement_kind', 'str')
     sys.stdout = tee
+    before = set(threading.enumerate())
     try:
         if kind == 'callable':
             ret = make_statement(spec)()
@@ -107,6 +116,7 @@ def reference(spec: dict) -> dict:
     except BaseException as e:  # noqa
         exc = e
     finally:
+        _join_new_threads(before)       # a process running the script would wait for the threads it left behind
         sys.stdout = old
     return {'stdout': tee.text(), 'writes': tee.writes, 'exc': _exc_summary(exc), 'ret': ret if isinstance(ret, (int, str, float, bool, type(None), list)) else repr(ret)}
 
@@ -219,6 +229,7 @@ def recorder(spec: dict, all_modules: bool = False) -> dict:
     old = sys.stdout
     sys.stdout = tee
     kind = spec.get('statement_kind', 'str')
+    before_threads = set(threading.enumerate())
     try:
         threading.settrace(tr)
         sys.settrace(tr)
@@ -231,7 +242,8 @@ def recorder(spec: dict, all_modules: bool = False) -> dict:
         except BaseException:  # noqa
             pass
     finally:
-        sys.settrace(None)
+        sys.settrace(None)                        # this thread is no longer recorded: the wait below is not the script's
+        _join_new_threads(before_threads)
         threading.settrace(None)  # type: ignore[arg-type]
         sys.stdout = old
     for fr in keep:
@@ -371,11 +383,17 @@ def run_batch(specs: list[dict]) -> list[dict]:
     import tempfile
     import shutil
     tmp = tempfile.mkdtemp(prefix='nlv-inproc-')
+    if os.environ.get('NLV_INPROC_DUMP'):
+        # debugging aid: where is everybody if a batch gets wedged?  (stacks of all threads, every N seconds, to a file)
+        import faulthandler
+        faulthandler.dump_traceback_later(float(os.environ['NLV_INPROC_DUMP']), repeat=False,
+                                          file=open(f"/tmp/nlv-inproc-stacks-{os.getpid()}.txt", 'w'))
     try:
         out = []
         for s in specs:
             s = dict(s, tmpdir=tmp)
             done: list = []
+            before = set(threading.enumerate())
 
             def work() -> None:
                 done.append(run_one(s))
@@ -384,6 +402,12 @@ def run_batch(specs: list[dict]) -> list[dict]:
             th.join(s.get('timeout', 20))
             if done:
                 out.append(done[0])
+                # a program that raised in its main thread leaves its worker threads behind: let them end before the next program
+                # starts (in a real run every program has a process of its own)
+                for t in set(threading.enumerate()) - before:
+                    if t is not threading.current_thread() and not t.name.startswith(('nlv-', 'MainThread-sim')) \
+                            and not isinstance(t, threading._DummyThread):
+                        t.join(5)
             else:
                 out.append({'spec': {k: v for k, v in s.items() if k != 'tmpdir'}, 'harness_error': 'TIMEOUT: the traced run did not finish'})
                 break      # the process is wedged (sys.settrace state); the caller restarts the batch remainder
